@@ -37,6 +37,8 @@ func init() {
 				Rule: "each round started by RunSequencer is unreachable unless AcceptingSubmissions() returned true; AcceptingSubmissions compares the time since NotAfterLimit with ReadOnlyAfter (one week)", Run: c17h},
 			{ID: "C17.i", Title: "STATUS", Template: "T5", MinInst: 2,
 				Rule: "pool-full and evicted outcomes return 503, a sunset log returns 410, and nothing else does", Run: c17i},
+			{ID: "C17.l", Title: "NO-RESTART", Template: "T1+T6", MinInst: 2,
+				Rule: "a stopped sequencer stays stopped: no call of RunSequencer lies on a cycle of its function, and the Log it runs on is a fresh LoadLog result for every start (the start site cannot be reached again without passing the LoadLog that defines its receiver)", Run: c17l},
 			{ID: "C17.j", Title: "TEST-HOOKS", Template: "T4", MinInst: 3,
 				Rule: "package-level testingOnly* hooks and the clock hook are never assigned outside their declaration in non-test code", Run: c17j},
 		},
@@ -976,4 +978,80 @@ func c17bHelper(c *Ctx, f *Func, eh *evictHelper, inst string) {
 	}
 	c.add(Result{Instance: inst, Verdict: Discharged, Evals: 6, Sites: sites,
 		Detail: "helper " + eh.H.Name + ": single iteration, cancel(), delete(lowPriority, k), return k, true; owner: pendingLeaves[slot] = leaf on the ok edge", Witnesses: f.WitEdges(okT)})
+}
+
+// c17l: RunSequencer is never restarted on the same Log.
+func c17l(c *Ctx) {
+	spec := Callee{pkgCtlog, "Log", "RunSequencer"}
+	n := 0
+	for _, f := range c.P.Funcs("") {
+		if f.Body == nil || strings.HasSuffix(f.Pkg.PkgPath, "_test") {
+			continue
+		}
+		for _, s := range f.Calls(spec) {
+			n++
+			c.touch(f)
+			info := f.Info()
+			g := f.Graph()
+			inst := "RunSequencer call in " + f.Name
+			// (1) not on a cycle of its own function (a cycle that reloads the Log first is handled by (2))
+			if f != f.Top() {
+				if pt, _ := g.Reach(s.After(), Cut{}, atSite(s)); pt != nil {
+					c.Bad(inst, s.Pos(), "the sequencer can be started again after it returned (the call lies in a loop): after a fatal error the in-memory tree is stale, and a restarted sequencer would sign from it")
+					continue
+				}
+			}
+			// (2) the Log is a fresh LoadLog result for every start
+			sel, ok := ast.Unparen(s.Call.Fun).(*ast.SelectorExpr)
+			recv := types.Object(nil)
+			if ok {
+				recv = objOf(info, sel.X)
+			}
+			top := f.Top()
+			var def *Site
+			if recv != nil {
+				for _, d := range top.Defs(recv) {
+					if d.Kind == DefAssign && d.Idx == 0 {
+						if call, isC := ast.Unparen(d.Rhs).(*ast.CallExpr); isC && matchCallee(top.Info(), call, Callee{pkgCtlog, "", "LoadLog"}) {
+							if ds := top.Find(func(n ast.Node) bool { return n == d.Node }); len(ds) == 1 && len(top.Defs(recv)) == 1 {
+								def = &ds[0]
+							}
+						}
+					}
+				}
+			}
+			if def == nil {
+				if recv != nil && isParamOrRecv(top, recv) {
+					// a method or helper running the sequencer of the Log it was given: decided at its callers
+					c.OK(inst, "runs the sequencer of its own receiver / parameter once", []string{s.Pos()})
+					continue
+				}
+				c.Unk(inst, "the Log the sequencer runs on is not a single LoadLog result at "+s.Pos())
+				continue
+			}
+			// the start site in the top function: the statement that contains the call, or that creates the literal containing it
+			start := s
+			if f != top {
+				lit := f
+				for lit.Parent != nil && lit.Parent != top {
+					lit = lit.Parent
+				}
+				ss := top.Find(func(n ast.Node) bool { return n == ast.Node(lit.Lit) })
+				if len(ss) != 1 {
+					c.Unk(inst, "cannot locate the creation of the goroutine body in "+top.Name)
+					continue
+				}
+				start = ss[0]
+			}
+			tg := top.Graph()
+			if pt, _ := tg.Reach(start.After(), Cut{Stop: func(p Point, _ ast.Node) bool { return p == def.P }}, atSite(start)); pt != nil {
+				c.Bad(inst, start.Pos(), "the sequencer can be started again on the same Log without reloading it from the lock store")
+				continue
+			}
+			c.add(Result{Instance: inst, Verdict: Discharged, Evals: 2, Sites: []string{s.Pos(), def.Pos()}, Detail: "not in a loop; every start follows its own LoadLog"})
+		}
+	}
+	if n == 0 {
+		c.Unk("RunSequencer callers", "no call of RunSequencer in non-test code")
+	}
 }
